@@ -601,6 +601,9 @@ def generate(tier, seed):
     g = Gen(seed)
     K3 = [0, 1, 2]
     K4 = [0, 1, 2, 3]
+    # element type with a user-provided swap (ADL): iter_swap, reverse, swap_ranges over n = 0..8 elements
+    for k in range(9):
+        g.add("adl_swap", [], 0, 0, "n=%d" % k)
     # single-range operations
     L3 = 6 if thorough else 5
     for r in seqs(K3, L3):
@@ -767,6 +770,8 @@ UNPROVED_OBSERVED = [
     "the functor returned by for_each (observed: its call count), the predicate-call ORDER of stable_partition's two recursive "
     "calls (unspecified evaluation order of function arguments)",
     "search(first, last, searcher) / default_searcher and iter_swap with two different iterator types: neither modelled nor run",
+    "adl_swap (iter_swap / reverse / swap_ranges over an element type with a user-provided swap found by ADL only: number of user-swap "
+    "calls 1, n/2, n and the payload/tag layout): closed-form expectation in the driver ([alg.swap], [alg.reverse]), no loop model",
     "min / max / minmax / clamp return REFERENCES to their arguments: the harness compares values (and identity tags), not addresses",
     "single-pass behaviour of the remaining input-iterator algorithms (copy, move, copy_if, copy_n, remove_copy(_if), unique_copy, "
     "transform 1/2, partition_copy, merge, set_*, partial_sum, adjacent_difference, transform_reduce, find_first_of's first range): "
